@@ -46,13 +46,15 @@ async fn one_config(a: Args, idx: usize, proto: Proto, transport: Transport) -> 
     let tag = format!("c01-{idx}");
     let dd = d.clone();
     // half of the stream-transport configurations run through a forwarder that re-segments the client-server link
-    // (7 / 64 / 1000 bytes per segment, changing while flows run): read boundaries fall everywhere in the wire format
-    let chopper = if transport != Transport::Quic && rng.chance(1, 2) { super::chopper::start(d.server_port).await.ok() } else { None };
+    // (pieces of random size up to 12 / 64 / 1000 bytes, changing while flows run): read boundaries fall everywhere in the wire format
+    let chopper = if transport == Transport::Tcp || (transport != Transport::Quic && rng.chance(1, 2)) { super::chopper::start(d.server_port).await.ok() } else { None };
     let link = chopper.as_ref().map(|c| c.port);
     if let Some(c) = &chopper {
-        c.segment.store(*rng.pick(&[7u64, 64, 1000]), std::sync::atomic::Ordering::SeqCst);
+        c.segment.store(*rng.pick(&[12u64, 64, 1000]), std::sync::atomic::Ordering::SeqCst);
         // Shadowsocks 2022 itself demands salt + fixed header (at most 32+16+27 / 32+59 bytes) in the first read: not split
-        c.whole_prefix.store(128, std::sync::atomic::Ordering::SeqCst);
+        if matches!(proto, Proto::Ss(m) if m.is_2022()) {
+            c.whole_prefix.store(128, std::sync::atomic::Ordering::SeqCst);
+        }
     }
     let pair = match tokio::task::spawn_blocking(move || match link {
         Some(p) => start_pair_via(&dd, &tag, p),
@@ -92,7 +94,7 @@ async fn one_config(a: Args, idx: usize, proto: Proto, transport: Transport) -> 
     let (solo, rest) = specs.split_at(specs.len().min(4));
     let mut results = run_batch(reg.clone(), &d, target.port, solo.to_vec(), 1, Duration::from_secs(25)).await;
     if let Some(c) = &chopper {
-        c.segment.store(*rng.pick(&[7u64, 64, 1000, 0]), std::sync::atomic::Ordering::SeqCst);
+        c.segment.store(*rng.pick(&[12u64, 100, 2000, 0]), std::sync::atomic::Ordering::SeqCst);
         rep.mon("configurations_with_resegmented_link", 1);
     }
     results.extend(run_batch(reg.clone(), &d, target.port, rest.to_vec(), 8, Duration::from_secs(40)).await);
